@@ -34,6 +34,8 @@ func main() {
 		wireCmd(out, *seed, *tier)
 	case "hostile":
 		hostileCmd(out, *seed, *tier)
+	case "gossip":
+		gossipCmd(out, *seed, *tier)
 	default:
 		fmt.Fprintln(os.Stderr, "unknown command", cmd)
 		os.Exit(2)
